@@ -8,7 +8,7 @@ wt, md = sys.argv[1], sys.argv[2]
 name = os.path.basename(md.rstrip("/"))
 env = dict(os.environ, GOFLAGS="-mod=mod", GOPROXY="off", GOSUMDB="off", GOTOOLCHAIN="local")
 def run(cmd, **kw):
-    p = subprocess.run(cmd, shell=True, cwd=wt, env=env, stdout=subprocess.PIPE, stderr=subprocess.STDOUT, text=True, **kw)
+    p = subprocess.run(cmd, shell=True, cwd=wt, env=env, stdout=subprocess.PIPE, stderr=subprocess.STDOUT, text=True, errors="replace", **kw)
     return p.returncode, p.stdout
 meta = json.load(open(os.path.join(md, "meta.json")))
 demo = glob.glob(os.path.join(md, "zz_demo*_test.go"))[0]
